@@ -18,6 +18,7 @@ import (
 	"verifharness/sched"
 	"verifharness/trace"
 
+	ubackoff "github.com/aperturerobotics/util/backoff"
 	"github.com/aperturerobotics/util/keyed"
 	cbackoff "github.com/cenkalti/backoff/v4"
 )
@@ -47,6 +48,7 @@ type kdScenario struct {
 	RC       bool     `json:"rc"`
 	Delay    int      `json:"delay"`
 	Retry    bool     `json:"retry"`
+	BoExp    bool     `json:"boexp,omitempty"` // retry with the library's own exponential backoff (WithRetry) instead of the harness's constant one
 	NK       int      `json:"nk"`
 	NCtx     int      `json:"nctx"`
 	MaxOps   int      `json:"maxops"`
@@ -90,6 +92,7 @@ type kdAPI interface {
 }
 
 type kdDriver struct {
+	flush    int // end-of-run ticks taken
 	x        *sched.Exec
 	sc       kdScenario
 	mu       sync.Mutex
@@ -358,6 +361,7 @@ func genKeyed(x *sched.Exec) kdScenario {
 		sc.Delay = 10
 	}
 	sc.Retry = r.Intn(2) == 0
+	sc.BoExp = sc.Retry && r.Intn(3) == 0
 	seq := sc.Mode == "seq"
 	if seq {
 		sc.MaxOps = 8 + r.Intn(8)
@@ -599,7 +603,11 @@ func (d *kdDriver) Run(x *sched.Exec, raw json.RawMessage) json.RawMessage {
 	if sc.Delay != 0 {
 		opts = append(opts, keyed.WithReleaseDelay[int, int](time.Duration(sc.Delay)*kdUnit))
 	}
-	if sc.Retry {
+	if sc.Retry && sc.BoExp {
+		// the library's own exponential backoff: 10, 20, 40, 80, 80, ... (one per key)
+		opts = append(opts, keyed.WithRetry[int, int](&ubackoff.Backoff{BackoffKind: ubackoff.BackoffKind_BackoffKind_EXPONENTIAL,
+			Exponential: &ubackoff.Exponential{InitialInterval: 10, Multiplier: 2, MaxInterval: 80}}))
+	} else if sc.Retry {
 		opts = append(opts, keyed.WithBackoff[int, int](func(k int) cbackoff.BackOff { return &kdBackoff{d: d, k: k} }))
 	}
 	if sc.RC {
@@ -628,7 +636,7 @@ func (d *kdDriver) Run(x *sched.Exec, raw json.RawMessage) json.RawMessage {
 		}
 		return true
 	}
-	x.Log(trace.E{"ev": "config", "seqmode": seq, "delay": sc.Delay, "retry": sc.Retry, "rc": sc.RC})
+	x.Log(trace.E{"ev": "config", "seqmode": seq, "delay": sc.Delay, "retry": sc.Retry, "rc": sc.RC, "boexp": sc.Retry && sc.BoExp})
 
 	libBusy := func() bool { return len(x.ParkedActors()) != 0 }
 	guided := func() bool { return len(x.Sched) > 0 && !x.Diverged && !x.SchedDone() }
@@ -648,6 +656,15 @@ func (d *kdDriver) Run(x *sched.Exec, raw json.RawMessage) json.RawMessage {
 			ms = append(ms, d.outMoves(false)...)
 		}
 		if d.nops >= sc.MaxOps {
+			// the operations are used up: when nothing else is left to do let time run on a little (in
+			// steps of 7), so that retries that are owed -- or timers that should have been stopped -- show
+			if len(ms) == 0 && !guided() && sc.Retry && sc.Mode != "seq" && d.flush < 4 {
+				ms = append(ms, sched.Move{Label: "tick", Do: func() {
+					d.flush++
+					x.Log(trace.E{"ev": "tick", "d": 7})
+					x.Tick(7 * kdUnit)
+				}})
+			}
 			return ms
 		}
 		var cand []int
